@@ -3,5 +3,6 @@ pub mod hc128;
 pub mod isaac;
 pub mod jitter;
 pub mod misc;
+pub mod projection;
 pub mod stream;
 pub mod vigna;
